@@ -4,6 +4,10 @@ from .. import strategies as S
 FULL = [f for f in S.ALL_FEATURES if f not in ("exact", "deadlock")]
 
 
+# exclusion predicates for open known findings (vf/findings.py); applied by construction and counted
+KNOWN_EXCLUSIONS = ("preempt_blocked",)
+
+
 def full_profile(**kw):
     weights = {"inf": 0.25, "zero_servers": 0.08, "schedule": 0.3, "sched_preempt": 0.5, "sched_reroute": 0.3,
                "slotted": 0.2, "ps": 0.12, "capacity": 0.45, "system_capacity": 0.12, "priorities": 0.45,
@@ -13,5 +17,6 @@ def full_profile(**kw):
                "self_loops": 0.5, "custom_dists": 0.3, "zero_service": 0.5}
     args = dict(allowed=FULL, weights=weights, numeric="mixed", max_nodes=3, max_classes=3,
                 plans=("max_time", "max_time", "max_customers"), horizon=(4.0, 14.0), budget=500)
+    args["excluded"] = KNOWN_EXCLUSIONS
     args.update(kw)
     return S.Profile(**args)
